@@ -89,6 +89,7 @@ func c12Get(shape int, desc int) *c12Decl {
 		ty("MU16", decl.TMapU16U8, "36", map[uint16]uint8{35: 35}, map[uint16]uint8{1295: 255, 36: 1}),
 		ty("Gr", decl.TGrade, "", decl.Grade(1), decl.Grade(-3)),
 		ty("Grs", decl.TGrades, "", []decl.Grade{1, 2}),
+		ty("PSs", decl.TPStrs, "", []*string{sp("x")}, []*string{sp(" edge "), sp("")}, []*string{sp("a;b"), sp("\"q")}),
 	)
 	// optional-argument options: an empty value is a value, not "no argument"
 	optS := ty("OptS", decl.TString, "", "", "x")
@@ -202,6 +203,9 @@ func init() {
 		}
 		if wo&4 != 0 {
 			wopts |= flags.IniIncludeComments
+		}
+		if part == 1 && shape == 0 && desc == 0 && state == 0 {
+			c12AddedOptions(c, wopts) // runs beside the regular leaf of this cell
 		}
 		cd := c12Get(shape, desc)
 		b1 := cd.d.BuildTags()
@@ -340,7 +344,7 @@ func init() {
 		ShardDepth: 5,
 		Body:       body,
 		Rule: "(A) every string of length <= 2 (quick) / <= 3 (thorough) over {space tab \" \\ a LF CR é 0xFF = : ; # [ ] NBSP ,} plus 4095/4096/4098/10200/65536/90000-byte strings, used as a string option, a slice element (alone / second), a map value, a map key (only keys the key:value syntax can express), a string with a default tag; " +
-			"(B) 27 typed fields (incl. two optional-argument options holding empty strings, integer-keyed maps with base 16 / 36, a slice with two default tags, a named integer type with a String method but no marshalling of its own, and a slice of it) (ints in bases 2/10/16/36 at their limits, uints, float32/64 incl. max, denormal, +-Inf, -0, NaN, bool, []bool, Duration limits, *int, *string, Marshaler/Unmarshaler, []int, map[string]int, map[int]string, map[string]bool, []uint8 base 16) each with its interesting values, and all fields set at once; " +
+			"(B) 28 typed fields (incl. a slice of string pointers with awkward elements, two optional-argument options holding empty strings, integer-keyed maps with base 16 / 36, a slice with two default tags, a named integer type with a String method but no marshalling of its own, and a slice of it) (ints in bases 2/10/16/36 at their limits, uints, float32/64 incl. max, denormal, +-Inf, -0, NaN, bool, []bool, Duration limits, *int, *string, Marshaler/Unmarshaler, []int, map[string]int, map[int]string, map[string]bool, []uint8 base 16) each with its interesting values, and all fields set at once; " +
 			"x 5 declaration shapes (flat, nested namespaced groups, command with group, sub-subcommand, command three levels deep with a group; with ini-name, hidden, no-ini and callback options) x description {none, one line, two lines} x all 8 IniOptions x writer state {fresh, option previously read quoted, previously read under its long name}; " +
 			"oracle: Write -> Parse into a fresh parser over the same declaration -> ParseArgs(nil): every written option equal (NaN-aware); distinct = distinct (usage, value class, options/state/shape, result)",
 		Assumptions:  []string{"values are stored into the option struct after an initial ParseArgs(nil), as a program does before saving its configuration", "map keys restricted exactly as the statement restricts them"},
@@ -370,4 +374,52 @@ func c12BothZero(a, b reflect.Value) bool {
 		return false
 	}
 	return a.Float() == 0 && b.Float() == 0
+}
+
+// c12AddedOptions: options handed over with (*Group).AddOption (a string and an int in the parser's option group) are
+// written under a name the reader understands and come back with their values.
+func c12AddedOptions(c *explore.Ctx, wopts flags.IniOptions) {
+	type base struct {
+		A string `long:"a"`
+	}
+	mk := func() (*flags.Parser, *string, *int) {
+		p := flags.NewParser(&base{}, flags.None)
+		g := p.Command.Group.Find("Application Options")
+		s, n := new(string), new(int)
+		g.AddOption(&flags.Option{LongName: "added-str", Description: "a string added with AddOption"}, s)
+		g.AddOption(&flags.Option{LongName: "added-int", ShortName: 'i'}, n)
+		return p, s, n
+	}
+	vals := []string{"x", " edge ", "", `"q`, "a;b"}
+	v := vals[c.Choose(len(vals))]
+	var text string
+	var err error
+	var s2 *string
+	var n2 *int
+	func() {
+		defer func() {
+			if r := recover(); r != nil {
+				c.Fail("panic|"+explore.PanicSite(), map[string]interface{}{"panic": fmt.Sprint(r), "note": "options added with (*Group).AddOption"})
+			}
+		}()
+		p1, s1, n1 := mk()
+		*s1, *n1 = v, 7
+		var buf bytes.Buffer
+		flags.NewIniParser(p1).Write(&buf, wopts)
+		text = buf.String()
+		var p2 *flags.Parser
+		p2, s2, n2 = mk()
+		err = flags.NewIniParser(p2).Parse(strings.NewReader(text))
+	}()
+	if c.Failed() {
+		return
+	}
+	c.Hit("options-added-with-AddOption")
+	if err != nil {
+		c.Fail("written-file-unreadable|added-option|"+c12ValueClass(v), map[string]interface{}{"file": text, "error": err.Error()})
+		return
+	}
+	if *s2 != v || *n2 != 7 {
+		c.Fail("value-not-reproduced|added-option|"+c12ValueClass(v), map[string]interface{}{"file": text, "want": []interface{}{v, 7}, "got": []interface{}{*s2, *n2}})
+	}
 }
